@@ -32,7 +32,7 @@ var famOdd = []string{"a b/c d", "p+q", "x(1)", "é/ü", "a.b/c", "my file.txt",
 	"100%/50%d", "%s", "a%20b", "b\\c", "c|d", "{e}", "^f$", "g'h", "i\"j", "k#l", "m;n", "o=p", "r&s", "t~u", "v@w", "x!y", "`z`", "a,b", "c:d", "<e>/f"}
 var famExt = []string{"src/a", "src/b", "src.c", "src-old", "src0", "src_x", "src2/c", "srcs", "src/sub/d", "src/sub.e"}
 var famIgn = []string{"f", "build/o", "sub/build/o", "rebuild/o", "a.exe", "a.exe.txt", "x.goit/f", "sub/.goit/f", ".goitx", "b.exe/z", "sub/c.exe"}
-var defaultBranches = []string{"main", "a", "ab", "b", "a-b", "a.b", "Z", "dev", "x_1", ".wip", "HEAD", "release"}
+var defaultBranches = []string{"main", "a", "ab", "b", "a-b", "a.b", "Z", "dev", "x_1", ".wip", "HEAD", "release", "Main", "A", "DEV", "z"} // (with names that differ only in letter case)
 
 // sampledFamily draws a path universe around one directory name D: files beneath it, siblings whose names extend D with bytes
 // sorting before and after '/', a nested directory with the same tail, dot-names next to the metadata directory, an odd name.
